@@ -212,7 +212,7 @@ end CV.Props.C01
 namespace CV.Props.C01
 
 /-- (facts, regenerated from the source on every run) **The source text the model transcribes is the text of the
-    current source**: the bodies (comments and layout removed) of the 53 functions the model behind C01 was written from and
+    current source**: the bodies (comments and layout removed) of the 51 functions the model behind C01 was written from and
     validated against.  Any edit of one of them breaks this theorem at build time; the check then searches with the
     property's own oracles for a failing input, and reports `no-failing-input-found` if it finds none: the model then
     has to be re-validated against the new text (and this block regenerated). -/
@@ -239,11 +239,9 @@ theorem source_decision_logic : CV.Facts.logicC01 = [
   "query.BinaryCriteria.And: { return and(c, other) }", 
   "query.BinaryCriteria.Not: { return not(c) }", 
   "query.BinaryCriteria.Or: { return or(c, other) }", 
-  "query.BinaryCriteria.Satisfy: { if c.OpType == LogicalAnd { return c.C1.Satisfy(doc) && c.C2.Satisfy(doc) } return c.C1.Satisfy(doc) || c.C2.Satisfy(doc) }", 
   "query.NotCriteria.And: { return and(c, other) }", 
   "query.NotCriteria.Not: { return not(c) }", 
   "query.NotCriteria.Or: { return or(c, other) }", 
-  "query.NotCriteria.Satisfy: { return !c.C.Satisfy(doc) }", 
   "query.Query.MatchFunc: { return q.Where(newCriteria(FunctionOp, \"\", p)) }", 
   "query.Query.Where: { newQuery := q.copy() newQuery.criteria = c return newQuery }", 
   "query.Query.copy: { return &Query{ collection: q.collection, criteria: q.criteria, limit: q.limit, skip: q.skip, sortOpts: q.sortOpts, } }", 
